@@ -15,7 +15,9 @@ TRUSTED = ["hand-written word-level models of mpn_get_d (IEEE branch), __gmp_ext
            "conversion functions in lean/Mpir/Model/Conv.lean (tied by correspondence on every run, not by translation)",
            "count_leading_zeros = 63 - log2 (bsrq)"]
 ASSUMPTIONS = ["64-bit limbs, no nails, IEEE little-endian binary64, long = intmax_t = 64 bits",
-               "mpf exponents stay below 2^56 in absolute value ((EXP - size) * 64 is computed in long by mpf_get_d)"]
+               "mpf_get_d_2exp: the returned exponent EXP*64 - cnt is a long, so operands need |EXP| < 2^57 (inherent in the interface); "
+               "generated mpf exponents for that function stay below 2^56, for all other mpf functions they go up to 2^62",
+               "get_d_bits_spec / mpz_get_d_spec assume fewer than 2^57 limbs (64 * size must not overflow; an address-space bound)"]
 RULE = ("conv: integers +-(2^k + {-1,0,1}) for k in {0,15,16,31,32,52,53,54,63,64,65,1022,1023,1024,1074}; 54..200-bit values whose "
         "discarded part is <1/2, =1/2, >1/2 ulp; every class of double (+-0, min/max subnormal, min normal, 2^53+-1, max finite, "
         "+-inf, NaNs) and doubles adjacent to integers and limb boundaries; all pairs of a mixed value set through "
@@ -103,7 +105,7 @@ def rand_mpf(rng):
     return mpf_tok(rng, v, shift, neg=rng.random() < 0.45)
 
 def gen_ops(rng, tier, ctx=None):
-    reps = 1 if tier == "quick" else 6
+    reps = 1 if tier == "quick" else 25
     yield "mpz_cmp_sizes 40000000 -40000000"            # the historical failures (see corpus/C11) and friends
     yield "mpz_cmp_sizes -40000000 40000000"
     yield "mpz_cmp_sizes 7fffffff -7fffffff"
@@ -303,7 +305,21 @@ def gen_ops(rng, tier, ctx=None):
             f = mpf_tok(rng, v, E - bits, neg=rng.random() < 0.5)
             yield "mpf_get_d %s" % f
             yield "mpf_get_d_2exp %s" % f
-    # large exponents (still far from overflowing (EXP - size) * 64)
+    # huge exponents: (EXP - size) * 64 does not fit a long beyond 2^57 (mpf_get_d saturates, mpf/get_d.c:39-44)
+    for e in ((1 << 57) - 1, 1 << 57, (1 << 57) + 1, (1 << 57) + 2, -(1 << 57), -(1 << 57) - 1, -(1 << 57) + 1, (1 << 58) + 1, 1 << 59,
+              -((1 << 58) - 1), (1 << 62) - 1, -(1 << 62), 1 << 61, rng.randrange(1 << 57, 1 << 62), -rng.randrange(1 << 57, 1 << 62)):
+        yield "mpf_get_d 40 1 %s [1]" % hx(e)
+        yield "mpf_get_d 40 -1 %s [8000000000000000]" % hx(e)
+        yield "mpf_get_d 80 2 %s [5,ffffffffffffffff]" % hx(e)
+        yield "mpf_get_d c0 -3 %s [0,1,3]" % hx(e)
+        yield "mpf_get %s" % ("40 1 %s [5]" % hx(e))
+        yield "mpf_fits 40 -1 %s [5]" % hx(e)
+        yield "mpf_integer_p 40 1 %s [5]" % hx(e)
+        yield "mpf_cmp 40 1 %s [5] 40 1 %s [5]" % (hx(e), hx(e + 1))
+        yield "mpf_cmp_ui 40 1 %s [5] 5" % hx(e)
+        yield "mpf_cmp_si 40 -1 %s [5] -5" % hx(e)
+        yield "mpf_cmp_d 40 1 %s [5] 7fefffffffffffff" % hx(e)
+    # large exponents for which the exponent of get_d_2exp still fits a long
     for e in ((1 << 56) - 1, -(1 << 56), (1 << 40), -(1 << 40)):
         yield "mpf_get_d 40 1 %s [1]" % hx(e)
         yield "mpf_get_d_2exp 40 -1 %s [8000000000000000]" % hx(e)
